@@ -42,6 +42,7 @@ Proof.
   - eapply inv_p_emit; eassumption.
   - eapply inv_p_addlost; eassumption.
   - eapply inv_p_finish; eassumption.
+  - eapply inv_p_exec; eassumption.
   - eapply inv_m_msg; eassumption.
   - eapply inv_w_pick; eassumption.
   - eapply inv_w_write; eassumption.
